@@ -9,7 +9,7 @@ replaced by a stub that returns an arbitrary value of its contract:
 Job payloads are symbolic integers, so a result that lands in the wrong slot is visible.
 Every function below has a PEP316 contract; `*_twin` functions are reachability witnesses whose
 post-condition is deliberately false and must be REFUTED by CrossHair."""
-from typing import Dict, List
+from typing import Dict, List, Optional
 import sys
 
 import accelforge.util.parallel  # noqa: F401  (the attribute is shadowed by the function)
@@ -132,3 +132,30 @@ def generator_unordered_is_a_permutation(vals: List[int], perm: List[int], n_job
     jobs = [P.delayed(_ident)(v) for v in vals]
     out = list(_run(jobs, perm, n_jobs, return_as="generator_unordered"))
     return sorted(out) == sorted(vals)
+
+
+# Results that are None (or any falsy value) are legitimate results and must keep their slot.  Job
+# payloads of Optional type multiply the paths, so these two conditions are explored for <= 3 jobs.
+def list_in_job_order_optional_results(vals: List[Optional[int]], perm: List[int], n_jobs: int) -> bool:
+    """
+    pre: 0 <= len(vals) <= 3
+    pre: 1 <= n_jobs <= 16
+    pre: _is_perm(perm, len(vals))
+    post: _
+    """
+    jobs = [P.delayed(_ident)(v) for v in vals]
+    out = _run(jobs, perm, n_jobs)
+    return len(out) == len(vals) and all((a is None and b is None) or (a is not None and b is not None and a == b) for a, b in zip(out, vals))
+
+
+def dict_keys_to_own_result_optional_results(vals: List[Optional[int]], perm: List[int], n_jobs: int) -> bool:
+    """
+    pre: 0 <= len(vals) <= 3
+    pre: 1 <= n_jobs <= 16
+    pre: _is_perm(perm, len(vals))
+    post: _
+    """
+    jobs = {f"k{i}": P.delayed(_ident)(v) for i, v in enumerate(vals)}
+    out = _run(jobs, perm, n_jobs)
+    return list(out.keys()) == [f"k{i}" for i in range(len(vals))] and all(
+        (out[f"k{i}"] is None and v is None) or (out[f"k{i}"] is not None and v is not None and out[f"k{i}"] == v) for i, v in enumerate(vals))
